@@ -9,14 +9,19 @@ def optNatI (s : String) : Option Nat := if s == "-" || s == "none" then none el
 /-- 0 = unlimited (pooled `queue_capacity`, gate `queue_capacity`) -/
 def zeroUnl (n : Nat) : Option Nat := if n == 0 then none else some n
 
-/-- header: `[current|repaired]` then `pooled pool qcap [downstream 0|1]` | `conveyor cap` | `gate init_open qcap` | `batch size timeout_ns [overlap]` | `reneging limit qcap [reneged_target 0|1]` -/
+/-- `a1 b1 a2 b2 …` -/
+def pairsI : List String → List (Nat × Nat)
+  | a :: b :: rest => (natD a, natD b) :: pairsI rest
+  | _ => []
+
+/-- header: `[current|repaired]` then `pooled pool qcap [downstream 0|1]` | `conveyor cap` | `gate init_open qcap [open_ns close_ns]*` | `batch size timeout_ns [overlap]` | `reneging limit qcap [reneged_target 0|1]` -/
 def parseHdrI : List String → Option Cfg
   | "current" :: rest => (parseHdrI rest).map fun c => { c with repaired := false }
   | "repaired" :: rest => parseHdrI rest
   | ["pooled", p, q] => some { comp := .pooled, limit := natD p, qcap := zeroUnl (natD q) }
   | ["pooled", p, q, d] => some { comp := .pooled, limit := natD p, qcap := zeroUnl (natD q), sink := d != "0" }
   | ["conveyor", c] => some { comp := .conveyor, limit := natD c, unlimited := natD c == 0 }
-  | ["gate", o, q] => some { comp := .gate, initOpen := o == "1", qcap := zeroUnl (natD q) }
+  | "gate" :: o :: q :: ws => some { comp := .gate, initOpen := o == "1", qcap := zeroUnl (natD q), windows := pairsI ws }
   | ["batch", b, t] => some { comp := .batch, limit := natD b, timeout := natD t }
   | ["batch", b, t, o] => some { comp := .batch, limit := natD b, timeout := natD t, overlap := o == "overlap" }
   | ["reneging", l, q] => some { comp := .reneging, limit := natD l, qcap := optNatI q }
@@ -31,6 +36,8 @@ def parseActI : List String → Option (Nat × Act)
   | [t, "rdone", i] => some (natD t, .rdone (natD i))
   | [t, "open"] => some (natD t, .openG)
   | [t, "close"] => some (natD t, .closeG)
+  | [t, "copen"] => some (natD t, .copen)
+  | [t, "cclose"] => some (natD t, .cclose)
   | [t, "timeout"] => some (natD t, .timeout)
   | [t, "bfin", k] => some (natD t, .bfin (natD k))
   | [t, "deq"] => some (natD t, .deq)
@@ -44,6 +51,8 @@ def showActI (c : Comp) : Act → String
   | .rdone i => s!"rdone {i}"
   | .openG => "open"
   | .closeG => "close"
+  | .copen => "copen"
+  | .cclose => "cclose"
   | .timeout => "timeout"
   | .bfin k => s!"bfin {k}"
   | .deq => "deq"
